@@ -183,7 +183,7 @@ def check_files(ctx, status, args, got, payload):
 def direct_cases(ctx):
     rng = ctx.rng
     lines, pend = [], []
-    for k in range(ctx.n(90, 900)):
+    for k in range(ctx.n(160, 900)):
         n = rng.choice([6, 9, 20, 60])
         lead = rng.choice([0, 0, 1, 2, 4])
         trail = rng.choice([0, 0, 1, 3])
